@@ -161,7 +161,9 @@ class MinSumLDPCDecoder(BeliefPropagationDecoder):
                 if self.scaling_factor != 1.0:
                     v_messages = v_messages * self.scaling_factor
                 if self.offset != 0.0:
-                    v_messages = v_messages - torch.sign(v_messages) * self.offset
+                    # The offset shrinks the magnitude towards zero but must not cross it: a message
+                    # weaker than the offset carries no information instead of the opposite sign.
+                    v_messages = torch.sign(v_messages) * torch.clamp(torch.abs(v_messages) - self.offset, min=0.0)
 
                 # Reshape to match expected output
                 v_messages = v_messages.view(batch_size, -1)
